@@ -39,23 +39,27 @@ def validate(ctx, path, stage):
 def run(ctx):
     th = ctx.thorough
     selftest = os.environ.get("VERIF_SELFTEST") == "1"   # mutant runs: the model does not depend on the code
-    # 1. the design
-    if not selftest:
-        mc = ctx.tlc("InsertRowsMC", "InsertRows_mc_big.cfg" if th else "InsertRows_mc.cfg", timeout=3000 if th else 600,
-                     coverage=th, constants={"MaxContrib": 3 if th else 2, "NShards": 4, "UniqLimit": 3, "Window": 100,
-                                             "BucketTimes": [1000, 997], "shapes": 12})
-        ctx.require_model_ok(mc, "InsertRows invariants")
-        ctx.ev.set("exhaustive", True)
+    consts = {"MaxContrib": 3 if th else 2, "NShards": 4, "UniqLimit": 3, "Window": 100, "BucketTimes": [1000, 997], "shapes": 12}
+    # 1. the design + 2. contribution sequences for the driver
     if th and not selftest:
+        # one exploration does both: invariants checked and every transition's behaviour exported
+        beh = ctx.tlc("InsertRowsMC", "InsertRows_mcbeh_big.cfg", timeout=3000, coverage=True, constants=consts,
+                      name="InsertRows invariants + behaviour export")
+        ctx.require_model_ok(beh, "InsertRows invariants")
+        ctx.ev.set("exhaustive", True)
         for cfg, inv in (("InsertRows_bad_dup.cfg", "InsertNoDup"), ("InsertRows_bad_sum.cfg", "InsertMerged"),
                          ("InsertRows_bad_host.cfg", "InsertMerged")):
             r = ctx.tlc("InsertRowsMC", cfg, timeout=600, expect_violation=True, name="non-vacuity: " + cfg, record=False)
             if r.violated != "invariant:" + inv:
                 raise Infra("%s does not fire on the broken specification %s (%s)" % (inv, cfg, r.violated))
-    # 2. contribution sequences for the driver
-    beh = ctx.tlc("InsertRowsMC", "InsertRows_beh_big.cfg" if th else "InsertRows_beh.cfg", timeout=3000 if th else 600,
-                  name="behaviour export")
-    ctx.require_model_ok(beh, "behaviour export")
+    else:
+        if not selftest:
+            mc = ctx.tlc("InsertRowsMC", "InsertRows_mc.cfg", timeout=600, constants=consts)
+            ctx.require_model_ok(mc, "InsertRows invariants")
+            ctx.ev.set("exhaustive", True)
+        beh = ctx.tlc("InsertRowsMC", "InsertRows_beh_big.cfg" if th else "InsertRows_beh.cfg", timeout=3000 if th else 600,
+                      name="behaviour export")
+        ctx.require_model_ok(beh, "behaviour export")
     inputs = inputs_of(beh.behaviours)
     rnd = random.Random(ctx.seed)
     rnd.shuffle(inputs)
